@@ -144,7 +144,7 @@ func (o outcome) line() string {
 // does (real bufio.Reader over the same reader, real types.Parse), and reports
 // whether a count/size/length field above the cap is read before the walk
 // stops.  Such a file is not offered to the real parser.  fullStr: parseString
-// reads with io.ReadFull (detected by probe; the unchanged code uses r.Read).
+// reads with io.ReadFull (detected by probe; true since a93bbfc, the old code used r.Read).
 func oversizeMPCLC(in io.Reader, fullStr bool) bool {
 	r := bufio.NewReader(in)
 	var h [5]uint32
@@ -369,7 +369,8 @@ func sameCircuit(a, b *circuit.Circuit, native bool) string {
 
 var rePanicIdx = regexp.MustCompile(`index out of range \[(\d+)\] with length (\d+)`)
 
-// panicClass names the one panic that is a recorded finding: the store
+// panicClass names the panic the code had before 7309cfb (status fixed in
+// known_findings.json, so it is reported like any other): the store
 // gates[gate] with gate == len(gates) == header.NumGates in ParseMPCLC.
 func panicClass(o outcome, data []byte) string {
 	m := rePanicIdx.FindStringSubmatch(o.pmsg)
